@@ -37,6 +37,15 @@ CLAIMED = {
          "The model runs in the driver (Gauss-Jordan for inv) and is compared with createPRISM wiring, cost(x) and the post-solve state of the real code; PRISM-equation and closure residuals are "
          "evaluated on the implementation from public attributes only.",
          "4 C01", "Lean 4 proof (matrix algebra, DST inverse, mean-value theorem, induction over evaluation traces) + differential correspondence"),
+ 'C02': ("PARTIAL. The full statement (the numerically solved g, S, c converge to the Wertheim-Thiele / dilute-limit functions with an error <= const*dr) is NOT proved: it needs a stability analysis of the "
+         "discretised non-linear integral equation for which Mathlib has no theory; that part is validated numerically. Proved (Lean, all named ..._partial): rank1_oz_partial and rank1_from_cost_partial (what a "
+         "one-component cost evaluation stores satisfies h(1 - rho omega c) = omega c omega, S(1 - rho omega c) = omega: pins site vs pair density and the sign conventions of c and gamma), "
+         "dilute_fixed_point_partial / dilute_gamma_zero_partial (Filter.Tendsto as rho -> 0: gamma = 0 is the fixed point), dilute_closures_partial (there g = e^{-u/kT} for PY/HNC, 1 - u/kT for MSA, 0 inside a "
+         "flagged core), wertheim_contact_consistent_partial (-c(1^-) = (1+eta/2)/(1-eta)^2) and wertheim_compressibility_consistent_partial (1 - 24 eta Int_0^1 c r^2 dr = (1+2 eta)^2/(1-eta)^4 = 1/S(0), a "
+         "kernel-checked interval integral): the reference values the harness compares against are mutually consistent. Validation runs on the implementation: PY hard spheres eta = 0.05..0.45 on refinement "
+         "families (contact value, S(k), S(0), c(r) against the references evaluated by the Lean driver, |error| <= K(eta)*dr on every member), every shipped potential x {PY, HNC, MSA} in the dilute limit "
+         "(g and second virial), and the rank-1 reduction after arbitrary cost(x) with model correspondence.",
+         "4 C02", "Lean 4 proof of the algebraic/limit/reference-consistency parts (partial) + numerical validation runs of the convergence claim"),
  'C03': ("Lean theorems for EVERY evaluation of the self-consistency function (arbitrary x, other pairs, densities, omega all universally quantified): hardcore_flag_exact (c + gamma = -1 at every "
          "r <= sigma, all four closures), py_noflag_core / hnc_noflag_core / noflag_core_bound (without the flag the miss is exactly e^{-H/kT}(1+gamma) resp. e^{gamma-H/kT}), "
          "potential_core_agrees_with_closure_core, core_g_eq_residual (inside a flagged core the stored real-space c satisfies c + gamma_in = -1 and g = h+1 IS y/r; uses the DST inverse theorem), "
